@@ -26,6 +26,11 @@ type jitterCase struct {
 	EpsFrac float64  `json:"eps_frac"` // eps = EpsFrac * separation / 3.5
 	JitFrac float64  `json:"jit_frac"` // displacement bound = JitFrac * eps, JitFrac <= 0.45
 	Seed    uint64   `json:"seed"`
+	// Chain: instead of a random jitter, the copies of a vertex are placed at v, v-0.9*eps*d and v+0.9*eps*d
+	// (d a sign vector): neighbours in the chain are closer than eps, so each pair must be combined and the
+	// whole chain becomes one vertex although its ends are 1.8 eps apart; eps = separation/4.5 keeps copies
+	// of different vertices more than 2.7 eps apart, whose grid cells can never touch.
+	Chain bool `json:"chain,omitempty"`
 }
 
 func genJitter(t *rapid.T) jitterCase {
@@ -39,6 +44,7 @@ func genJitter(t *rapid.T) jitterCase {
 	}
 	c.JitFrac = rapid.SampledFrom([]float64{0.45, 0.45, 0.3, 0.1, 0}).Draw(t, "jitfrac")
 	c.Seed = rapid.Uint64().Draw(t, "seed")
+	c.Chain = gen.Int(t, 0, 3, "chain") == 0
 	return c
 }
 
@@ -79,11 +85,35 @@ func checkJitter(c jitterCase, o *kit.Obs) error {
 	}
 	r := &rng{s: c.Seed}
 	bound := c.JitFrac * eps
+	if c.Chain {
+		eps = c.EpsFrac * sep / 4.5
+		bound = 0.9 * eps
+		c.JitFrac = 0.9
+		o.Label("chain")
+	}
 	jit := make([]kit.Tri, len(base))
 	copies := map[kit.V3]bool{}
+	seenCopies := map[kit.V3]int{}
+	dirs := map[kit.V3]kit.V3{}
 	for i, t := range base {
 		for k := 0; k < 3; k++ {
-			jit[i][k] = kit.V3{t[k][0] + bound*r.unit(), t[k][1] + bound*r.unit(), t[k][2] + bound*r.unit()}
+			if c.Chain {
+				d, ok := dirs[t[k]]
+				if !ok {
+					for d == (kit.V3{}) {
+						d = kit.V3{float64(int(3*(r.unit()+1)/2) - 1), float64(int(3*(r.unit()+1)/2) - 1), float64(int(3*(r.unit()+1)/2) - 1)}
+						for a := range d {
+							d[a] = math.Max(-1, math.Min(1, d[a]))
+						}
+					}
+					dirs[t[k]] = d
+				}
+				f := []float64{0, -1, 1}[seenCopies[t[k]]%3] * bound
+				seenCopies[t[k]]++
+				jit[i][k] = kit.V3{t[k][0] + f*d[0], t[k][1] + f*d[1], t[k][2] + f*d[2]}
+			} else {
+				jit[i][k] = kit.V3{t[k][0] + bound*r.unit(), t[k][1] + bound*r.unit(), t[k][2] + bound*r.unit()}
+			}
 			copies[c3(jit[i][k])] = true
 		}
 	}
@@ -92,7 +122,7 @@ func checkJitter(c jitterCase, o *kit.Obs) error {
 	}
 	o.Labelf("jit:%g", c.JitFrac)
 	dj := analyse3(jit)
-	if c.JitFrac > 0 && !dj.NeedsRepair {
+	if c.JitFrac > 0 && !c.Chain && !dj.NeedsRepair {
 		return fmt.Errorf("%w: jittered soup unexpectedly does not need repair", kit.ErrInfra)
 	}
 	res := m3.Tris(m3.MeshFromTris(jit).Repair(eps))
@@ -154,6 +184,7 @@ type jitter2Case struct {
 	EpsFrac float64   `json:"eps_frac"`
 	JitFrac float64   `json:"jit_frac"`
 	Seed    uint64    `json:"seed"`
+	Chain   bool      `json:"chain,omitempty"` // as in the 3D case
 }
 
 func genJitter2(t *rapid.T) jitter2Case {
@@ -167,6 +198,7 @@ func genJitter2(t *rapid.T) jitter2Case {
 	}
 	c.JitFrac = rapid.SampledFrom([]float64{0.45, 0.45, 0.3, 0.1, 0}).Draw(t, "jitfrac")
 	c.Seed = rapid.Uint64().Draw(t, "seed")
+	c.Chain = gen.Int(t, 0, 3, "chain") == 0
 	return c
 }
 
@@ -192,11 +224,38 @@ func checkJitter2(c jitter2Case, o *kit.Obs) error {
 	}
 	r := &rng{s: c.Seed}
 	bound := c.JitFrac * eps
+	if c.Chain {
+		eps = c.EpsFrac * sep / 4.5
+		bound = 0.9 * eps
+		c.JitFrac = 0.9
+		o.Label("chain")
+	}
 	jit := make([]kit.Seg, len(base))
 	copies := map[kit.V2]bool{}
+	seenCopies := map[kit.V2]int{}
+	dirs := map[kit.V2]kit.V2{}
 	for i, s := range base {
 		for k := 0; k < 2; k++ {
-			jit[i][k] = kit.V2{s[k][0] + bound*r.unit(), s[k][1] + bound*r.unit()}
+			if c.Chain {
+				d, ok := dirs[s[k]]
+				if !ok {
+					for d == (kit.V2{}) {
+						d = kit.V2{float64(int(3*(r.unit()+1)/2) - 1), float64(int(3*(r.unit()+1)/2) - 1)}
+						for a := range d {
+							d[a] = math.Max(-1, math.Min(1, d[a]))
+						}
+					}
+					dirs[s[k]] = d
+				}
+				// a 2D manifold vertex has two copies: put them at the two ENDS of the chain and add the
+				// middle only where a third copy exists; two ends 1.8 eps apart need not be combined, so
+				// with only two copies use the middle and one end
+				f := []float64{0, -1, 1}[seenCopies[s[k]]%3] * bound
+				seenCopies[s[k]]++
+				jit[i][k] = kit.V2{s[k][0] + f*d[0], s[k][1] + f*d[1]}
+			} else {
+				jit[i][k] = kit.V2{s[k][0] + bound*r.unit(), s[k][1] + bound*r.unit()}
+			}
 			copies[c2(jit[i][k])] = true
 		}
 	}
